@@ -269,6 +269,18 @@ class ClassInfo:
                 return True
         return False
 
+    def external_bases(self) -> list[str]:
+        """names of base classes (of the class or a project ancestor) that are not classes of the project (ABC, Generic, Enum,
+        rich.Table ...): behaviour may be inherited from them"""
+        out = []
+        for c in self.mro():
+            resolved = {b.name for b in c.bases}
+            for b in c.base_exprs:
+                nm = (attr_chain(b.value if isinstance(b, ast.Subscript) else b) or "?").split(".")[-1]
+                if nm not in resolved and nm not in ("object", "ABC", "Generic", "Protocol"):
+                    out.append(nm)
+        return out
+
     def is_namedtuple(self) -> bool:
         return any((attr_chain(b) or "").split(".")[-1] == "NamedTuple" for b in self.base_exprs)
 
